@@ -77,7 +77,19 @@ func Wide(kind string, n int) *Program {
 	case "in":
 		e := In(Name("x"))
 		for i := 0; i < n; i++ {
-			e.Kids = append(e.Kids, Num(fmt.Sprint(i)))
+			// constants of every shape: plain, signed, parenthesised, strings
+			var v *E
+			switch i % 5 {
+			case 1:
+				v = Un("-", Num(fmt.Sprint(i)))
+			case 3:
+				v = Paren(Num(fmt.Sprint(i)))
+			case 4:
+				v = StrLit(fmt.Sprint("s", i), i%2 == 0)
+			default:
+				v = Num(fmt.Sprint(i))
+			}
+			e.Kids = append(e.Kids, v)
 		}
 		return q(&Op{K: "where", X: e})
 	case "in-consts":
